@@ -12,7 +12,7 @@ RULE = ("Hypothesis-generated (scenario, schedule) cases biased to trigger chain
         "until without trigger inputs, and every cause of a later step in (t, m] is traceable to a step of the "
         "simulator itself at or after t. non-trigivial = a simulator with a trigger input was promised m < until "
         "at least once and >= 2 replies were pending at once; distinct = distinct case hashes"
-        "; in addition four long runs (until 80 / 120 / 1100) under FIFO, LIFO and a starved simulator, and the "
+        "; in addition six long runs (until 80 / 120 / 1100, strides of hundreds, 24 simulators) under FIFO, LIFO and a starved simulator, and the "
         "extreme policies (LIFO, steps first, get_data first, each simulator starved) before every schedule enumeration")
 ASSUMPTIONS = [
     "non-real-time runs; 'outside its own control' = cause chains visible to the monitor (outputs, self-schedules)",
